@@ -39,7 +39,8 @@ def one(d):
 
 def main():
     root = sys.argv[1]
-    dirs = sorted(glob.glob(os.path.join(root, 'C*', 'm*')))
+    tag = sys.argv[2] if len(sys.argv) > 2 else ''
+    dirs = sorted(d for d in glob.glob(os.path.join(root, 'C*', 'm*')) if os.path.exists(os.path.join(d, 'meta.json')))
     good = 0
     with cf.ThreadPoolExecutor(10) as ex:
         for o in ex.map(one, dirs):
@@ -49,7 +50,7 @@ def main():
             if not ok:
                 continue
             good += 1
-            name = f"{o['own']}-{os.path.basename(o['dir'])}"
+            name = f"{o['own']}-{tag}{os.path.basename(o['dir'])}"
             dst = os.path.join(V, 'seeded', name)
             os.makedirs(dst, exist_ok=True)
             shutil.copy(o['patch'], os.path.join(dst, 'patch.diff'))
